@@ -99,3 +99,81 @@ Proof.
   - apply Qle_shift_div_l; auto. lra.
   - apply Qle_shift_div_r; auto. lra.
 Qed.
+
+From Coq Require Import Permutation.
+(* ---- the statistics themselves ------------------------------------------------------------------------ *)
+Lemma insertQ_perm x l : Permutation (x :: l) (insertQ x l).
+Proof.
+  induction l as [|y t IH]; cbn; [apply Permutation_refl|].
+  destruct (Qleb x y); [apply Permutation_refl|].
+  eapply perm_trans; [apply perm_swap|]. apply perm_skip. exact IH.
+Qed.
+
+Lemma sortQ_perm l : Permutation l (sortQ l).
+Proof.
+  induction l as [|x t IH]; cbn; [constructor|].
+  eapply perm_trans; [apply perm_skip; exact IH|]. apply insertQ_perm.
+Qed.
+
+Lemma sortQ_In l x : In x (sortQ l) <-> In x l.
+Proof. split; apply Permutation_in; [apply Permutation_sym|]; apply sortQ_perm. Qed.
+
+(* the most frequent value is one of the observed values, and no observed value occurs more often *)
+Lemma mode_fold_In l s best :
+  In best l -> incl s l ->
+  In (fold_left (fun b x => if countQ b l <? countQ x l then x else b) s best) l.
+Proof.
+  revert best. induction s as [|x s IH]; intros best Hb Hs; cbn [fold_left]; [exact Hb|].
+  apply IH; [|intros y Hy; apply Hs; right; exact Hy].
+  destruct (countQ best l <? countQ x l); [apply Hs; left; reflexivity|exact Hb].
+Qed.
+
+Theorem mode_is_observed l : l <> [] -> In (mode l) l.
+Proof.
+  intros Hne. unfold mode.
+  assert (Hs : sortQ l <> []).
+  { intros E. apply Hne. apply Permutation_nil. rewrite <- E. apply Permutation_sym, sortQ_perm. }
+  apply mode_fold_In.
+  - destruct (sortQ l) as [|a t] eqn:E; [congruence|]. cbn. apply sortQ_In. rewrite E. left; reflexivity.
+  - intros y Hy. apply sortQ_In. exact Hy.
+Qed.
+
+Lemma mode_fold_max l s best :
+  forall y, (y = best \/ In y s) ->
+  (countQ y l <= countQ (fold_left (fun b x => if countQ b l <? countQ x l then x else b) s best) l)%nat.
+Proof.
+  revert best. induction s as [|x s IH]; intros best y Hy; cbn [fold_left].
+  - destruct Hy as [->|[]]. apply Nat.le_refl.
+  - destruct (Nat.ltb_spec (countQ best l) (countQ x l)) as [Hlt|Hge].
+    + destruct Hy as [->|[->|Hy]].
+      * eapply Nat.le_trans; [apply Nat.lt_le_incl; exact Hlt|]. apply IH. left; reflexivity.
+      * apply IH. left; reflexivity.
+      * apply IH. right; exact Hy.
+    + destruct Hy as [->|[->|Hy]].
+      * apply IH. left; reflexivity.
+      * eapply Nat.le_trans; [exact Hge|]. apply IH. left; reflexivity.
+      * apply IH. right; exact Hy.
+Qed.
+
+Theorem mode_is_most_frequent l y : In y l -> (countQ y l <= countQ (mode l) l)%nat.
+Proof.
+  intros Hy. unfold mode. apply mode_fold_max. right. apply sortQ_In. exact Hy.
+Qed.
+
+(* a constant strategy fills every gap with the configured constant, whatever the criterion holds *)
+Theorem constant_fills_the_constant v c i :
+  (i < length c)%nat -> nth i c None = None -> nth i (simple_impute_col (SConst v) c) 0 = v.
+Proof. intros Hi E. rewrite simple_fill_is_column_statistic by assumption. reflexivity. Qed.
+
+(* a criterion without gaps comes back as it is *)
+Theorem complete_criterion_untouched s c :
+  simple_impute_col s (map Some c) = c.
+Proof.
+  unfold simple_impute_col. rewrite map_map. apply map_id.
+Qed.
+
+(* the value that fills the gaps of a criterion depends on its observed values only - not on where the gaps are,
+   nor on how many there are *)
+Theorem fill_depends_on_observed_only s c c' :
+  observed c = observed c' -> fill_value s c = fill_value s c'.
+Proof. intros E. destruct s; cbn; rewrite ?E; reflexivity. Qed.
